@@ -34,7 +34,10 @@ func genC10(t *rapid.T) C10Case {
 	branch := 0
 	n := rapid.IntRange(2, lim.maxBlocks+4).Draw(t, "nsteps")
 	for i := 0; i < n; i++ {
-		op := rapid.SampledFrom([]string{"block", "block", "block", "block", "undo", "verify", "restore"}).Draw(t, "op")
+		op := rapid.SampledFrom([]string{"block", "block", "block", "block", "undo", "verify", "restore", "badmodify"}).Draw(t, "op")
+		if op == "badmodify" && f.NumLive() == 0 {
+			op = "block"
+		}
 		if op == "undo" && len(stack) == 0 {
 			op = "block"
 		}
@@ -59,6 +62,8 @@ func genC10(t *rapid.T) C10Case {
 			c.Steps = append(c.Steps, C10Step{Op: "verify", Set: genRequest(t, f)})
 		case "restore":
 			c.Steps = append(c.Steps, C10Step{Op: "restore"})
+		case "badmodify":
+			c.Steps = append(c.Steps, C10Step{Op: "badmodify", Set: genRequest(t, f)})
 		}
 	}
 	return c
@@ -340,6 +345,38 @@ func runC10(c C10Case) *Result {
 			}
 			for _, s := range st.Set {
 				tracked[s] = true
+			}
+		case "badmodify":
+			// a block the map forests must refuse: live leaves followed by a hash that is no leaf. Look-ups
+			// afterwards must be what they were (the leaves are still live and tracked)
+			for _, s := range st.Set {
+				if s < 0 || s >= len(f.Dead) || f.Dead[s] {
+					return res.failf("case error: step %d names slot %d which is not live", i, s)
+				}
+			}
+			{
+				v := f.View()
+				hs := append(f.HashesOf(st.Set), model.FreshHash(600+i))
+				proof := v.Proof(f.HashesOf(st.Set))
+				proof.Targets = append(proof.Targets, v.MaxPos())
+				for _, in := range insts {
+					if in.M == nil {
+						continue
+					}
+					known := true
+					for _, h := range hs[:len(hs)-1] {
+						if _, ok := in.M.CachedLeaves.Get(h); !ok {
+							known = false
+						}
+					}
+					if !known {
+						continue
+					}
+					if err := in.M.Modify(nil, cloneHashes(hs), cloneProof(proof)); err == nil {
+						return res.failf("step %d: %s accepted a block spending a hash that is not a leaf of the forest", i, in.Cfg)
+					}
+					res.count("refused-modify", 1)
+				}
 			}
 		case "restore":
 			for k, in := range insts {
